@@ -19,8 +19,10 @@ import Gonuts.Model.Amount
 
   Go `panic`s are explicit outcomes (`Out.panic`, `Res.panic`).
 
-  The model follows the code as it is, including defect F9 (`tokenstr[:6]` without a length check,
-  `TokenV3.Mint()` indexing `Token[0]`).
+  The model follows the code after the `fix:` commit for defect F9 (length check before `tokenstr[:6]`;
+  `DecodeTokenV3` rejects a token without entries).  The code before the fix is kept as `frontOld` /
+  `decodeTokenOld` for the regression theorems.  `TokenV3.Mint()` still indexes `Token[0]`: it panics on a
+  hand-built `TokenV3{}` value, which `DecodeToken` no longer returns.
 
   Core Lean only (linked into the driver).
 -/
@@ -443,12 +445,13 @@ def serializeV4 (cod : Codec) (t : TokenV4) : Option String :=
   | some cb => some (prefixStrV4 ++ asciiStr (b64Encode padRawURLEncoding cb))
 
 /-- The part of `DecodeTokenV3` / `DecodeTokenV4` before `Unmarshal` (the two functions differ only in
-    the prefix literal and the sentinel error): `prefixVersion := tokenstr[:6]`, `base64Token :=
-    tokenstr[6:]` — Go slice expressions on a string, which PANIC when the string has fewer than 6
-    bytes; there is no length check — then the prefix comparison and the two base64 attempts.
-    The result is the byte string handed to `json.Unmarshal` / `cbor.Unmarshal`. -/
+    the prefix literal and the sentinel error): the length check `len(tokenstr) < 6` (added by the F9 fix;
+    it returns the sentinel error), then `prefixVersion := tokenstr[:6]`, `base64Token := tokenstr[6:]` —
+    Go slice expressions on a string, which would panic on fewer than 6 bytes — the prefix comparison
+    and the two base64 attempts.  The result is the byte string handed to `json.Unmarshal` /
+    `cbor.Unmarshal`. -/
 def front (pfx : Bytes) (bad : DecErr) (s : Bytes) : Out DecErr Bytes :=
-  if s.length < cut then .panic (.sliceBounds cut s.length)
+  if s.length < cut then .err bad
   else
     let prefixVersion := s.take cut
     let base64Token := s.drop cut
@@ -461,7 +464,12 @@ def front (pfx : Bytes) (bad : DecErr) (s : Bytes) : Out DecErr Bytes :=
 def frontV3 (s : Bytes) : Out DecErr Bytes := front prefixV3 .invalidTokenV3 s
 def frontV4 (s : Bytes) : Out DecErr Bytes := front prefixV4 .invalidTokenV4 s
 
-/-- `DecodeTokenV3` on the bytes of the string; any token that `json.Unmarshal` yields is accepted. -/
+/-- The check of `DecodeTokenV3` after `json.Unmarshal` (added by the F9 fix): a token without entries is
+    rejected with `ErrInvalidTokenV3` (`Mint()` reads `Token[0]`). -/
+def checkV3 (t : TokenV3) : Out DecErr TokenV3 :=
+  if t.token.length = 0 then .err .invalidTokenV3 else .ok t
+
+/-- `DecodeTokenV3` on the bytes of the string. -/
 def decodeV3Bytes (cod : Codec) (s : Bytes) : Out DecErr TokenV3 :=
   match frontV3 s with
   | .panic p => .panic p
@@ -469,7 +477,7 @@ def decodeV3Bytes (cod : Codec) (s : Bytes) : Out DecErr TokenV3 :=
   | .ok tokenBytes =>
     match cod.decJson tokenBytes with
     | none => .err .unmarshal
-    | some t => .ok t
+    | some t => checkV3 t
 
 /-- `DecodeTokenV4` on the bytes of the string. -/
 def decodeV4Bytes (cod : Codec) (s : Bytes) : Out DecErr TokenV4 :=
@@ -482,7 +490,7 @@ def decodeV4Bytes (cod : Codec) (s : Bytes) : Out DecErr TokenV4 :=
     | some t => .ok t
 
 /-- `DecodeToken`: V4 first; on error V3, whose error is the one wrapped in `"invalid token: %v"`.
-    A panic of `DecodeTokenV4` propagates (there is no `recover`). -/
+    A panic of either would propagate (there is no `recover`). -/
 def decodeTokenBytes (cod : Codec) (s : Bytes) : Out DecErr Token :=
   match decodeV4Bytes cod s with
   | .panic p => .panic p
@@ -496,6 +504,44 @@ def decodeTokenBytes (cod : Codec) (s : Bytes) : Out DecErr Token :=
 def decodeTokenV3 (cod : Codec) (s : String) : Out DecErr TokenV3 := decodeV3Bytes cod (strBytes s)
 def decodeTokenV4 (cod : Codec) (s : String) : Out DecErr TokenV4 := decodeV4Bytes cod (strBytes s)
 def decodeToken (cod : Codec) (s : String) : Out DecErr Token := decodeTokenBytes cod (strBytes s)
+
+/-! ### the code before the F9 fix (kept for the regression theorems and examples) -/
+
+/-- Front end before the fix: `tokenstr[:6]` without a length check panics on fewer than 6 bytes. -/
+def frontOld (pfx : Bytes) (bad : DecErr) (s : Bytes) : Out DecErr Bytes :=
+  if s.length < cut then .panic (.sliceBounds cut s.length)
+  else
+    let prefixVersion := s.take cut
+    let base64Token := s.drop cut
+    if prefixVersion ≠ pfx then .err bad
+    else
+      match b64Stage base64Token with
+      | .error n => .err (.base64 n)
+      | .ok tokenBytes => .ok tokenBytes
+
+/-- `DecodeToken` before the fix: unguarded slices; any token `json.Unmarshal` yields is accepted. -/
+def decodeTokenBytesOld (cod : Codec) (s : Bytes) : Out DecErr Token :=
+  let v4 : Out DecErr TokenV4 :=
+    match frontOld prefixV4 .invalidTokenV4 s with
+    | .panic p => .panic p
+    | .err e => .err e
+    | .ok tokenBytes =>
+      match cod.decCbor tokenBytes with
+      | none => .err .unmarshal
+      | some t => .ok t
+  match v4 with
+  | .panic p => .panic p
+  | .ok t => .ok (.v4 t)
+  | .err _ =>
+    match frontOld prefixV3 .invalidTokenV3 s with
+    | .panic p => .panic p
+    | .err e => .err e
+    | .ok tokenBytes =>
+      match cod.decJson tokenBytes with
+      | none => .err .unmarshal
+      | some t => .ok (.v3 t)
+
+def decodeTokenOld (cod : Codec) (s : String) : Out DecErr Token := decodeTokenBytesOld cod (strBytes s)
 
 /-! ## the `Token` interface: every accessor on the dynamic type -/
 
